@@ -4,6 +4,7 @@
 //   dump("A","out") structural dump (dump_prog with disassembly and line table) into file out
 //   results("A")    results of every probe call of a generated program
 string base = "";
+void create() { seteuid(getuid()); }
 void set_base(string b) { base = b; }
 
 int reload(string names) {
@@ -34,5 +35,28 @@ int dump(string n, string out) {
 mixed results(string n) {
   object o = find_object(base + n);
   if (!o) return "unloaded";
-  return o->results();
+  return venc(o->results());
+}
+
+// change the heap / shared-string layout between two loads of the same program
+mixed *junk = ({ });
+int churn(int n) {
+  int i;
+  mixed *a = allocate(n);
+  for (i = 0; i < n; i++) a[i] = "churn_" + i + "_" + sizeof(junk);
+  junk += ({ a });
+  return sizeof(junk);
+}
+
+// C02: compile a (possibly damaged) file; the object is thrown away again
+mixed comp(string f) {
+  object o;
+  mixed e;
+  o = find_object(f);
+  if (o) destruct(o);
+  e = catch(o = load_object(f));
+  if (e) return ({ "errors", e });
+  if (!o) return ({ "none" });
+  destruct(o);
+  return ({ "program" });
 }
